@@ -3,6 +3,7 @@ package stk
 import (
 	"fmt"
 	"math/big"
+	"os"
 
 	tmtypes "github.com/tendermint/tendermint/types"
 
@@ -52,6 +53,51 @@ type Observer interface {
 	Block(c *BlockCtx) *Violation
 }
 
+var traceOn = os.Getenv("STK_TRACE") != ""
+
+// traceBlock prints a block the way the oracles see it (STK_TRACE=1; diagnosis only).
+func traceBlock(c *BlockCtx) {
+	out := run.Quiet()
+	fmt.Fprintf(out, "---- h=%d time=%s absent=%v updates=%s adv=%v opts=%v\n", c.H, c.Block.Time.Format("15:04:05"), c.Step.Spec.Absent, sim.FmtUpdates(c.Res.Updates), c.AdvErr, c.EndOpts)
+	for i, t := range c.Txs {
+		tags := ""
+		if i < len(c.Step.Tags) {
+			tags = fmt.Sprint(c.Step.Tags[i])
+		}
+		fmt.Fprintf(out, "   tx %-16s code=%d val=%.10s deleg=%.10s amt=%s req=%s voter=%.10s choice=%d rep=%.10s acc=%.10s %s log=%.90s\n", t.Kind, t.Code, t.Val, t.Deleg, t.Amount, t.ReqID, t.Voter, t.Choice, t.Reporter, t.Accused, tags, t.Log)
+	}
+	for _, r := range c.Cur.SortedVals() {
+		fr := ""
+		if f := c.Cur.Frozen[r.Addr]; f != nil {
+			fr = fmt.Sprintf(" frozen{st %d h %d rel %d frozen=%v}", f.Status, f.FrozenHeight, f.ReleaseHeight, f.IsFrozen())
+		}
+		st := ""
+		if s := c.Cur.Status[r.Addr]; s != nil {
+			st = fmt.Sprintf(" status{%v@%d}", s.Active, s.Height)
+		}
+		fmt.Fprintf(out, "   rec %.12s %-5s power=%d staking=%s total=%s locked=%v stakeaddr=%.10s purged=%d%s%s\n", r.Addr, r.Name, r.Power, r.Staking, c.Cur.TotalOf(r.Addr), c.Cur.Locked[r.Addr], r.StakeAddr, c.Cur.Purged[r.Addr], st, fr)
+	}
+	for a, t := range c.Cur.Total {
+		if c.Cur.Vals[a] == nil && t.Sign() != 0 {
+			fmt.Fprintf(out, "   norec %.12s total=%s locked=%v\n", a, t, c.Cur.Locked[a])
+		}
+	}
+	for id, q := range c.Cur.Reqs {
+		fmt.Fprintf(out, "   req %s acc=%.12s votes=%v\n", id, q.Accused, q.Votes)
+	}
+	if len(c.Cur.Bounded) > 0 || len(c.Cur.Mature) > 0 {
+		fmt.Fprintf(out, "   bounded=%v mature=%v\n", c.Cur.Bounded, c.Cur.Mature)
+	}
+	set := func(s *tmtypes.ValidatorSet) string {
+		x := ""
+		for _, v := range s.Validators {
+			x += fmt.Sprintf(" %.9s:%d", Addr(v.Address.Bytes()), v.VotingPower)
+		}
+		return x
+	}
+	fmt.Fprintf(out, "   set(h)=%s | next after=%s\n", set(c.ValSet), set(c.W.C.Next))
+}
+
 // ForkOpts applies the fork block's forced staking values.
 func ForkOpts(o StakingOpts) StakingOpts {
 	return StakingOpts{Min: big.NewInt(500000), Top: 64, Maturity: o.Maturity}
@@ -73,16 +119,20 @@ func InSet(s *tmtypes.ValidatorSet, addr string) (int64, bool) {
 // Execute runs a trace on one replica. When draw != nil the steps are generated on the fly
 // (draw sees the view of the last committed block) and appended to the trace, which is
 // journalled before each step executes. It returns the first violation and the features.
-func Execute(h *run.H, tr *hist.Trace, draw func(w *hist.World, last *View, i int) (hist.Step, bool), obs []Observer) (*Violation, *hist.World) {
+// A world that cannot be built (harness trouble, e.g. out of file descriptors) is reported as
+// oracle "harness", which callers must not turn into a property violation.
+func Execute(h *run.H, tr *hist.Trace, draw func(w *hist.World, last *View, i int) (hist.Step, bool), obs []Observer) *Violation {
 	w, err := hist.NewWorld(tr.Params, tr.Roles)
 	if err != nil {
-		return Violate("harness", "world", "cannot build world: %v", err), nil
+		return Violate("harness", "world", "cannot build world: %v", err)
 	}
+	// also runs when a draw panics out of this function (rapid stops a case that way)
+	defer w.Close()
 	if _, err := w.Init(); err != nil {
-		return Violate("init", "init-chain", "InitChain: %v", err), w
+		return Violate("init", "init-chain", "InitChain: %v", err)
 	}
 	if w.Primary().Panicked {
-		return Violate("node-panic", "InitChain", "the application panicked in InitChain"), w
+		return Violate("node-panic", "InitChain", "the application panicked in InitChain")
 	}
 	prev := Decode(0, w.Primary().DumpMap())
 	seen := map[string]bool{}
@@ -111,7 +161,7 @@ func Execute(h *run.H, tr *hist.Trace, draw func(w *hist.World, last *View, i in
 		b, res := w.RunBlock(*st.Spec)
 		c.Block, c.Res, c.H = b, res[0], b.Height
 		if w.Primary().Panicked {
-			return Violate("node-panic", w.Primary().PanicCall, "the application panicked in %s at height %d (kinds %v) and shut itself down", w.Primary().PanicCall, b.Height, st.Kinds), w
+			return Violate("node-panic", w.Primary().PanicCall, "the application panicked in %s at height %d (kinds %v) and shut itself down", w.Primary().PanicCall, b.Height, st.Kinds)
 		}
 		if !hadErr && w.C.UpdateErr != nil {
 			c.AdvErr = w.C.UpdateErr
@@ -143,12 +193,18 @@ func Execute(h *run.H, tr *hist.Trace, draw func(w *hist.World, last *View, i in
 			c.EndOpts = append(c.EndOpts, c.Cur.Staking)
 			c.TxOpts = append(c.TxOpts, c.Cur.Staking)
 		}
+		if traceOn {
+			traceBlock(c)
+		}
 		for _, o := range obs {
 			if v := o.Block(c); v != nil {
-				return v, w
+				if traceOn {
+					fmt.Fprintf(run.Quiet(), "VIOLATION %s/%s: %s\n", v.Oracle, v.Class, v.Msg)
+				}
+				return v
 			}
 		}
 		prev = c.Cur
 	}
-	return nil, w
+	return nil
 }
